@@ -24,7 +24,9 @@ def expand_saved_queries(zdir: PathLike, qstring: str) -> Optional[str]:
                 query_name=qname,
             )
             return None
-        new_qstring = new_qstring.replace(f"{{{qname}}}", sub_where_filter)
+        new_qstring = new_qstring.replace(
+            f"{{{qname}}}", _group_if_needed(sub_where_filter)
+        )
     _LOGGER.debug(
         "All saved query references have been expanded",
         original_query=qstring,
@@ -91,6 +93,17 @@ def _get_saved_where_filter(zdir: PathLike, query_name: str) -> Optional[str]:
             )
             return None
         where_filter = where_filter.replace(
-            f"{{{sub_query_name}}}", sub_where_filter
+            f"{{{sub_query_name}}}", _group_if_needed(sub_where_filter)
         )
+    return where_filter
+
+
+def _group_if_needed(where_filter: str) -> str:
+    """Parenthesizes a WHERE filter that contains an OR bar.
+
+    Without the parentheses, splicing 'a | b' next to other filters would
+    change what those filters are ANDed with.
+    """
+    if " | " in where_filter:
+        return f"({where_filter})"
     return where_filter
